@@ -316,3 +316,81 @@ Proof.
   pose proof (accepted_dfa_nil s h Hv Ha) as P. cbv zeta in P. destruct P as (Hd & _).
   now apply run_static.
 Qed.
+
+(* ------------------------------------------------------------------ the requested variables are never duplicated, dropped or reordered *)
+Lemma extends_eq c c' : c_vars c' = c_vars c -> c_dfa c' = c_dfa c -> extends c c'.
+Proof. intros A B. exists []. rewrite A, B, app_nil_r. auto. Qed.
+
+Lemma step_extends s e h : touches h e = false ->
+  extends (get s h) (get (fst (fst (step s e))) h).
+Proof.
+  intros Ht.
+  destruct e; cbn [step]; cbn [touches] in Ht; try apply extends_refl.
+  - unfold get. cbn [s_cfgs fst snd]. destruct (nth_app_new (s_cfgs s) ms h) as (_ & A & B & _). now apply extends_eq.
+  - destruct (negb (valid_h s h0)); [apply extends_refl|].
+    assert (G : forall c', get (put s h0 c') h = get s h).
+    { intros. rewrite get_put. rewrite Ht. reflexivity. }
+    destruct (ty =? 0); [|destruct (ty_known ty)]; cbn [fst snd]; rewrite ?G; apply extends_refl.
+  - destruct (negb (valid_h s h0)); [apply extends_refl|].
+    assert (G : forall c', get (put s h0 c') h = get s h).
+    { intros. rewrite get_put. rewrite Ht. reflexivity. }
+    destruct (ty_known fetch && ty_known stored); cbn [fst snd]; rewrite ?G; apply extends_refl.
+  - destruct (negb (valid_h s h0)) eqn:Ev; [apply extends_refl|].
+    assert (Hv : valid_h s h0 = true) by (destruct (valid_h s h0); [reflexivity|discriminate]).
+    pose proof (add_config_effect s h0 Hv) as P.
+    destruct (add_config s h0) as [[s1 o] a]. cbn [fst snd]. destruct P as (A & B & _).
+    destruct (Nat.eq_dec h h0) as [->|Hn]; [exact A|]. rewrite (B h Hn). apply extends_refl.
+  - destruct (negb (valid_h s h0)); [apply extends_refl|]. pose proof (create_static s h0 h) as P. cbv zeta in P.
+    destruct P as (A & B & _). now apply extends_eq.
+  - destruct (negb (valid_h s h0)); [apply extends_refl|]. unfold start.
+    destruct (negb (c_cf (get s h0))); [apply extends_refl|]. destruct (negb (s_link s)); [apply extends_refl|].
+    destruct (negb (c_added (get s h0))); [|apply extends_refl]. pose proof (create_static s h0 h) as P. cbv zeta in P.
+    destruct P as (A & B & _). now apply extends_eq.
+  - destruct (negb (valid_h s h0)); [apply extends_refl|]. unfold stop_or_delete.
+    destruct (negb (c_cf (get s h0))); [apply extends_refl|]. destruct (negb (s_link s)); apply extends_refl.
+  - destruct (negb (valid_h s h0)); [apply extends_refl|]. unfold stop_or_delete.
+    destruct (negb (c_cf (get s h0))); [apply extends_refl|]. destruct (negb (s_link s)); apply extends_refl.
+  - unfold on_packet. destruct data as [|cmd payload]; [apply extends_refl|].
+    destruct (chan =? g_chan_settings).
+    + destruct payload as [|id [|status r]]; try apply extends_refl.
+      pose proof (on_settings_static s cmd id status h) as P. cbv zeta in P. destruct P as (A & B & _). now apply extends_eq.
+    + destruct (chan =? g_chan_logdata); [rewrite on_logdata_state|]; apply extends_refl.
+Qed.
+
+(* every history that does not call add_variable / add_memory on configuration h *)
+Lemma run_extends evs : forall s h, forallb (fun e => negb (touches h e)) evs = true ->
+  extends (get s h) (get (final s evs) h).
+Proof.
+  induction evs as [|e r IH]; intros s h Ht; [apply extends_refl|].
+  cbn [forallb] in Ht. apply andb_true_iff in Ht as [Ht1 Ht2]. rewrite final_cons.
+  assert (Hte : touches h e = false) by (destruct (touches h e); [discriminate|reflexivity]).
+  eapply extends_trans; [apply (step_extends s e h Hte)|apply IH, Ht2].
+Qed.
+
+Lemma run_name_seq evs s h : forallb (fun e => negb (touches h e)) evs = true ->
+  name_seq (get (final s evs) h) = name_seq (get s h).
+Proof. intros H. apply extends_name_seq, run_extends, H. Qed.
+
+(* so the variable list of a configuration that gets accepted at the end of such a history is exactly the
+   requested sequence: each name once, typed ones first, pending ones after them in their order *)
+Lemma accepted_vars_are_requested evs s h : forallb (fun e => negb (touches h e)) evs = true ->
+  valid_h (final s evs) h = true ->
+  snd (add_config (final s evs) h) = AccAccepted ->
+  map v_name (c_vars (get (fst (fst (add_config (final s evs) h))) h)) = name_seq (get s h).
+Proof.
+  intros Ht Hv Ha. rewrite <- (run_name_seq evs s h Ht).
+  pose proof (add_config_effect (final s evs) h Hv) as P.
+  destruct (add_config (final s evs) h) as [[s1 o] a]. cbn [fst snd] in *. destruct P as (A & _ & _ & D).
+  rewrite <- (extends_name_seq _ _ A). unfold name_seq. rewrite (D Ha), app_nil_r. reflexivity.
+Qed.
+
+(* a rejected add_config announces nothing and leaves log_blocks and the id counter alone *)
+Lemma rejected_add_quiet s h e : valid_h s h = true -> snd (add_config s h) = AccRejected e ->
+  snd (fst (add_config s h)) = [] /\
+  s_blocks (fst (fst (add_config s h))) = s_blocks s /\ s_counter (fst (fst (add_config s h))) = s_counter s /\
+  c_id (get (fst (fst (add_config s h))) h) = c_id (get s h) /\ c_cf (get (fst (fst (add_config s h))) h) = c_cf (get s h).
+Proof.
+  intros Hv Ha. pose proof (add_config_effect s h Hv) as P.
+  destruct (add_config s h) as [[s1 o] a]. cbn [fst snd] in *. destruct P as (_ & _ & C & _).
+  apply C. rewrite Ha. discriminate.
+Qed.
